@@ -1,5 +1,5 @@
 """C07 - forcing recomputes exactly what was asked."""
-from ..store_check import run_families, validate_recorded
+from ..store_check import scaled, run_families, validate_recorded
 
 RELEVANT = {'forced', 'runs', 'visible', 'value', 'error'}
 
@@ -23,17 +23,7 @@ def plans(quick):
                  sim=dict(num=80, depth=12)),
             dict(family='names', name_mode=True, gen=dict(steps=5, slots=1, rcs=['model', 'model.large'], lists=[['model'], ['model.large']], fail=False, restart=False), cover_limit=600, walks=100, sim=dict(num=200, depth=10, fail=False, rcs=['model', 'model.large'], lists=[['model'], ['model.large']])),
         ]
-    return [
-        dict(family='names', name_mode=True, checks=[dict(steps=4, slots=2)], gen=dict(steps=4, slots=2, rcs=['model', 'model.large'], lists=[['model'], ['model.large']]), walks=200, sim=dict(num=600, depth=14)),
-        dict(family='kinds', opts={'gens': True}, checks=[dict(steps=4, slots=1, fail=False)],
-             gen=dict(steps=4, slots=1, fail=False), walks=200, sim=dict(num=800, depth=14)),
-        dict(family='deep', checks=[dict(steps=5, slots=2)], gen=dict(steps=5, slots=1), walks=200, sim=dict(num=800, depth=14)),
-    ] + [
-        dict(family=f, checks=[dict(steps=5, slots=2, force_sets='all', fail=False), dict(steps=5, slots=2)],
-             gen=dict(steps=(3 if f == 'chain' else 4), slots=1, force_sets='all'), walks=300, walk_len=14,
-             sim=dict(num=700, depth=16, force_sets='all'))
-        for f in ('chain', 'mounts', 'diamond')
-    ]
+    return scaled(plans(True), 3)
 
 
 def run(ctx):
